@@ -132,6 +132,25 @@ class Probe:
             raise Violation('second-chain-raised', dict(info, error=repr(e)[:300]))
         if [e for e in RT.log if e[4] == 'g:a']:
             raise Violation('second-chain-recomputed', info)
+        if self.mt['g:a'].kind in ('dir', 'list_numpy', 'continues'):
+            # ... and the state stays sound under ANOTHER forced recomputation (directory results are published by
+            # renaming directories around: whatever an interrupted publication left behind must not get in the way)
+            RT.log.clear()
+            ch3 = self.chain(data)
+            try:
+                with hyp.quiet_output():
+                    ch3.force(['g:a'])
+                    ok = digest_of(ch3['b'].value) == self.mt['b'].value and digest_of(ch3['g:a'].value) == self.mt['g:a'].value
+                    ch4 = self.chain(data)
+                    ok = ok and digest_of(ch4['g:a'].value) == self.mt['g:a'].value
+            except Exception as e:
+                raise Violation('forced-recomputation-after-recovery-raised', dict(info, error=repr(e)[:300]))
+            if not ok:
+                raise Violation('forced-recomputation-after-recovery-wrong-value', info)
+            extra = [p for p in listing(data) if p.startswith('g/a/') and '/' in p[4:]
+                     and p[4:].split('/')[0] == self.mt['g:a'].key and p[4:].split('/')[1].startswith(self.mt['g:a'].key)]
+            if extra:
+                raise Violation('published-directory-contains-a-work-directory', dict(info, nested=extra[:4]))
         return had
 
 
